@@ -1,4 +1,5 @@
 import TsVerif.C12.Judge
+import TsVerif.C01.Props
 /-!
 # C12 — Re-parsing after a small edit reuses the unchanged parts of the old tree
 
@@ -21,8 +22,12 @@ is bounded by the edit, on the model of `ts_subtree_edit` that C10 ties to the c
   `has_changes` IS the subtree at the same path of the tree before the edit (same value; in the C
   code the same pointer, which `marksOk` checks on the dumps by comparing addresses).
 * "reuse instead of lexing" — the gate accepts exactly the unmarked, non-fragile, non-error
-  candidates (C01 `gate_accepts`); `reused_not_lexed`, `lex_calls_bound` — OPEN (need the LR
-  driver model of C01 stage 1).
+  candidates (C01 `gate_accepts`); on C01's LR machine (`TsVerif/C01/LR.lean`, validated against
+  the real parser on the dumped tables): `reused_not_lexed` (C01) — tokens taken from the lexer +
+  tokens below reused subtrees = tokens consumed, so the tokens of a reused subtree are never
+  requested — and `lex_calls_bound` below.  A bound in terms of depth and fan-out
+  (`c · (depth + fan-out)`) needs the `Balanced` hypothesis, which is JUDGED on the dumps
+  (`Judge.lean: balanced`), and is OPEN.
 -/
 namespace TsVerif.C12
 open TsGen TsVerif TsVerif.C10
@@ -259,6 +264,13 @@ theorem marked_upper : ∀ (p : List Nat) (t : Tree) (e : Edit) (s s' : Tree) (o
             have ih := marked_upper q k e' s s' o' hnk hle' hs hs' ho' hne
             rcases hoe with hoe | hoe <;> omega
       · contradiction
+
+/-- `lex_calls_bound`: in every incremental run of the LR machine the number of lexer calls is at
+most the number of tokens consumed minus the tokens that lie below reused subtrees. -/
+theorem lex_calls_bound (T : C01.LR.Table) (bottom l r : Nat) (c d : C01.LR.Stack × List C01.Tok)
+    (h : C01.LR.IncrRun T bottom l r c d) : l ≤ c.2.length - d.2.length - r := by
+  have := C01.reused_not_lexed T bottom l r c d h
+  omega
 
 /-! ## Non-vacuity: a concrete tree and edit to which the three theorems apply non-trivially -/
 
